@@ -545,22 +545,22 @@ class ResourceQuerySegment(object):
             return rqs
 
     def _query_to_absolute(self, path, processed, rest):
+        # processed is None until the first component is consumed; only then may path be copied in
         if len(rest) == 0:
-            return processed
+            return processed or []
         if rest[0].encode() == ".":
-            if len(processed) == 0:
+            if processed is None:
                 return self._query_to_absolute(path, path[:], rest[1:])
             else:
                 return self._query_to_absolute(path, processed, rest[1:])
 
         if rest[0].encode() == "..":
+            if processed is None:
+                processed = path[:]
             if len(processed) == 0:
-                if len(path) == 0:
-                    raise Exception("Can't go up from root")
-                return self._query_to_absolute(path, path[:-1], rest[1:])
-            else:
-                return self._query_to_absolute(path, processed[:-1], rest[1:])
-        return self._query_to_absolute(path, processed + [rest[0]], rest[1:])
+                raise Exception("Can't go up from root")
+            return self._query_to_absolute(path, processed[:-1], rest[1:])
+        return self._query_to_absolute(path, (processed or []) + [rest[0]], rest[1:])
 
     def to_absolute(self, path):
         """Convert relative path to absolute path.
@@ -581,7 +581,7 @@ class ResourceQuerySegment(object):
         if self.query is None or len(self.query) == 0:
             return self
         return ResourceQuerySegment(
-            header=self.header, query=self._query_to_absolute(path, [], self.query)
+            header=self.header, query=self._query_to_absolute(path, None, self.query)
         )
 
     def __repr__(self):
